@@ -309,7 +309,17 @@ def run(ctx):
             # chunks keep the command lines short
             for i in range(0, len(ex), 60):
                 items.append((b + b'trailing', info, ex[i:i + 60]))
-    run_query_cases(ctx, items, 'generated')
+    # the names that live in several sections, asked again in the OPPOSITE order of messages (with section 2 first, then
+    # without; editions interleaved): where a name is found first depends on the message, not on what was asked before
+    multi = ['%reserved_bits', '%section_length', '%flag_bits', '%2.reserved_bits', '%3.reserved_bits', '%nosuchname']
+    first = []
+    for ed, sec2o, b in sorted(msgs, key=lambda m: (m[1] is None, -m[0])):
+        for info in (0, 1):
+            first.append((b + b'trailing', info, multi))
+    last = []
+    for ed, sec2o, b in sorted(msgs, key=lambda m: (m[1] is not None, m[0])):
+        last.append((b, 0, multi))
+    run_query_cases(ctx, first + items + last, 'generated')
 
     # --- info-only on damaged data -------------------------------------------------
     cases = []
